@@ -8,11 +8,18 @@ EXTENDS ABI, Json, IOUtils
 Obs == ndJsonDeserialize(IOEnv.OBS)
 Strict == "MODE" \in DOMAIN IOEnv /\ IOEnv.MODE = "strict"
 
-VARIABLE i
-Init == i \in 1..Len(Obs)
-Next == UNCHANGED i
-Spec == Init /\ [][Next]_i
+(* One JVM, many workers: the single initial state fans out into NB block states (level 1), each of which fans *)
+(* out into its observations (level 2); TLC's workers take the blocks in parallel.                           *)
+N == Len(Obs)
+NB == IF N <= 400 THEN 1 ELSE 64
+VARIABLES lvl, b, i
+vars == <<lvl, b, i>>
+Init == lvl = 0 /\ b = 0 /\ i = 0
+Next == \/ lvl = 0 /\ lvl' = 1 /\ b' \in 1..NB /\ i' = 0
+        \/ lvl = 1 /\ lvl' = 2 /\ b' = b /\ i' \in { q \in 1..N : q % NB = b % NB }
+Spec == Init /\ [][Next]_vars
 
 Report(o) == PrintT(ToJson(<<"NONCONF", i, Diag(o)>>))
-ConformsInv == Conforms(Obs[i]) \/ (~Strict /\ Report(Obs[i]))
+InfoLine(o) == Info(o) = "ok" \/ PrintT(ToJson(<<"INFO", i, o.env, o.conv, Info(o)>>))
+ConformsInv == lvl < 2 \/ (InfoLine(Obs[i]) /\ (Conforms(Obs[i]) \/ (~Strict /\ Report(Obs[i]))))
 =============================================================================
